@@ -1,6 +1,7 @@
 (** * SlowFacts2c (part C/D): `negative_digit_comp` returns the correctly rounded value.
 
-    [negative_digit_comp_correct]: stack back-end, exact tables.  Given the digits [N] (a
+    [negative_digit_comp_correct]: every configuration (stack / heap back-end, compact or not) with
+    the generated tables, every build mode.  Given the digits [N] (a
     normalised big integer), a negative decimal exponent, and a declined estimate [fp] whose
     truncation to the format is the pattern [bbits = rd_bits f fp]: if the correctly rounded
     pattern [w] of N * 10^exponent ([rne_bits]) is [bbits] or [bbits + 1], and the two scaled
@@ -18,6 +19,20 @@ Import ListNotations.
 Open Scope Z_scope.
 Local Opaque Z.pow.
 Arguments Z.pow : simpl never.
+
+(** ** 0. Small facts about the machine operations *)
+
+Lemma land_top_bit m : 2 ^ 63 <= m < 2 ^ 64 -> negb (Z.land m (2 ^ 63) =? 0) = true.
+Proof.
+  intros Hm. apply negb_true_iff, Z.eqb_neq. intros H.
+  assert (Hb : Z.testbit (Z.land m (2 ^ 63)) 63 = true).
+  { rewrite Z.land_spec, Z.pow2_bits_true by lia. rewrite andb_true_r.
+    apply Z.testbit_true; [lia|].
+    assert (m / 2 ^ 63 = 1) as ->; [|reflexivity].
+    symmetry. apply Z.div_unique with (r := m - 2 ^ 63); [|lia].
+    change (2 ^ 64) with (2 * 2 ^ 63) in Hm. lia. }
+  rewrite H, Z.bits_0 in Hb. discriminate.
+Qed.
 
 (** ** 1. The packed result of [round] for a callback returning floor + u *)
 
@@ -180,20 +195,6 @@ Proof.
       by (apply Z.mul_le_mono_nonneg_r; unfold femin in *; lia). lia.
 Qed.
 
-(** ** 3. Small facts about the machine operations *)
-
-Lemma land_top_bit m : 2 ^ 63 <= m < 2 ^ 64 -> negb (Z.land m (2 ^ 63) =? 0) = true.
-Proof.
-  intros Hm. apply negb_true_iff, Z.eqb_neq. intros H.
-  assert (Hb : Z.testbit (Z.land m (2 ^ 63)) 63 = true).
-  { rewrite Z.land_spec, Z.pow2_bits_true by lia. rewrite andb_true_r.
-    apply Z.testbit_true; [lia|].
-    assert (m / 2 ^ 63 = 1) as ->; [|reflexivity].
-    symmetry. apply Z.div_unique with (r := m - 2 ^ 63); [|lia].
-    change (2 ^ 64) with (2 * 2 ^ 63) in Hm. lia. }
-  rewrite H, Z.bits_0 in Hb. discriminate.
-Qed.
-
 End C.
 
 (** ** 4. `negative_digit_comp` as: prologue, [scale_digits], comparison, final rounding *)
@@ -232,7 +233,6 @@ Variable f : format.
 Variable b : build.
 Hypothesis Hf : rfmt_ok f = true.
 Hypothesis OK : fmt_ok f = true.
-Hypothesis Ha : alloc c = false.
 Hypothesis HT : pow5_tables_ok T = true.
 Hypothesis HK : pow5_large_ok T L = true.
 Hypothesis HL : LIMB_BITS L = 64.
@@ -243,7 +243,8 @@ Local Notation sh := (63 - MANTISSA_SIZE f).
 
 Theorem negative_digit_comp_correct_gen bigmant fp exponent N :
   limbs_ok (vl bigmant) -> is_normalized (vl bigmant) = true -> lval (vl bigmant) = N -> 0 < N ->
-  vcap bigmant = BIGINT_LIMBS L -> zlen (vl bigmant) <= vcap bigmant ->
+  BIGINT_LIMBS L <= vcap bigmant -> (alloc c = false -> vcap bigmant = BIGINT_LIMBS L) ->
+  zlen (vl bigmant) <= vcap bigmant ->
   2 ^ 63 <= mant fp < 2 ^ 64 -> - 63 <= exp fp <= 2 ^ 30 -> - 2 ^ 30 <= exponent < 0 ->
   let bbits := rd_bits f fp in
   let Mb := dec_mant f bbits in
@@ -255,7 +256,7 @@ Theorem negative_digit_comp_correct_gen bigmant fp exponent N :
   exists r, negative_digit_comp c T L f b bigmant fp exponent = Ok r /\
             extended_to_float f b r = Ok w.
 Proof.
-  intros Hbo Hbn HbN HN Hbc Hbl Hm He Hex bbits Mb Eb beta Hfr Hft w Hr Hw.
+  intros Hbo Hbn HbN HN Hbc0 Hbc Hbl Hm He Hex bbits Mb Eb beta Hfr Hft w Hr Hw.
   destruct (rfmt_ok_props f Hf) as [Pms Pew _ _ _ _ Pinf _ _ _ Pprec].
   destruct (rd_model f Hf b fp Hm He) as (R1 & R2 & R3). fold bbits in R2, R3.
   rewrite ndc_unfold.
@@ -273,14 +274,14 @@ Proof.
     change (2 ^ 30) with 1073741824. rewrite ff_denexp, ff_bias in HEb. rewrite ff_maxexp, ff_infpow, ff_bias in HEb.
     lia. }
   assert (HMh : 0 < 2 * Mb + 1 < 2 ^ 64) by (change (2 ^ 64) with (2 * 2 ^ 63); lia).
-  destruct (scale_digits_ok c T L b Ha HT HK HL Hcap (2 * Mb + 1) (Eb - 1) bigmant exponent N
-              HMh HEb' Hex Hbo Hbn HbN HN Hbc Hbl Hfr Hft) as (td & rd & ES & EC).
+  destruct (scale_digits_ok c T L b HT HK HL Hcap (2 * Mb + 1) (Eb - 1) bigmant exponent N
+              HMh HEb' Hex Hbo Hbn HbN HN Hbc0 Hbc Hbl Hfr Hft) as (td & rd & ES & EC).
   rewrite ES. cbn [bind]. rewrite EC. clear ES EC.
   (* the comparison is the comparison with the midpoint *)
   set (k := - exponent) in *.
   assert (Hk : 0 < k) by (unfold k; lia).
   pose proof (scaled_compare_mid N (2 * Mb + 1) (Eb - 1) k Hk) as SC. cbv zeta in SC.
-  replace (Eb - 1 + k) with beta in SC by (unfold beta, k; lia). rewrite SC. clear SC.
+  replace (Eb - 1 + k) with (Eb - 1 - exponent) in SC by (unfold k; lia). rewrite SC. clear SC.
   set (ord := sc_num N (Eb - 1) ?= (2 * Mb + 1) * sc_den (10 ^ k) (Eb - 1)).
   (* the final rounding *)
   destruct fp as [m e]. cbn [mant exp] in *.
@@ -317,9 +318,9 @@ End Main.
 
 (** ** 6. The generated tables and limits *)
 Theorem negative_digit_comp_correct c f b bigmant fp exponent N :
-  rfmt_ok f = true -> fmt_ok f = true -> alloc c = false ->
+  rfmt_ok f = true -> fmt_ok f = true ->
   limbs_ok (vl bigmant) -> is_normalized (vl bigmant) = true -> lval (vl bigmant) = N -> 0 < N ->
-  vcap bigmant = 62 -> zlen (vl bigmant) <= 62 ->
+  62 <= vcap bigmant -> (alloc c = false -> vcap bigmant = 62) -> zlen (vl bigmant) <= vcap bigmant ->
   2 ^ 63 <= mant fp < 2 ^ 64 -> - 63 <= exp fp <= 2 ^ 30 -> - 2 ^ 30 <= exponent < 0 ->
   let bbits := rd_bits f fp in
   let Mb := dec_mant f bbits in
@@ -331,10 +332,29 @@ Theorem negative_digit_comp_correct c f b bigmant fp exponent N :
   exists r, negative_digit_comp c TABLES LIMITS f b bigmant fp exponent = Ok r /\
             extended_to_float f b r = Ok w.
 Proof.
-  intros Hf OK Ha Hbo Hbn HbN HN Hbc Hbl Hm He Hex bbits Mb Eb beta Hfr Hft w Hr Hw.
-  apply (negative_digit_comp_correct_gen c TABLES LIMITS f b Hf OK Ha pow5_tables_ok_TABLES
-           pow5_large_ok_TABLES eq_refl LIMITS_cap bigmant fp exponent N); try assumption.
-  rewrite Hbc. exact Hbl.
+  intros Hf OK Hbo Hbn HbN HN Hbc0 Hbc Hbl Hm He Hex bbits Mb Eb beta Hfr Hft w Hr Hw.
+  apply (negative_digit_comp_correct_gen c TABLES LIMITS f b Hf OK pow5_tables_ok_TABLES
+           pow5_large_ok_TABLES eq_refl LIMITS_cap bigmant fp exponent N); assumption.
+Qed.
+
+(** the same with [bbits] characterised by the model's own computation of `b` *)
+Corollary negative_digit_comp_correct_b c f b bigmant fp exponent N bfp bbits :
+  rfmt_ok f = true -> fmt_ok f = true ->
+  limbs_ok (vl bigmant) -> is_normalized (vl bigmant) = true -> lval (vl bigmant) = N -> 0 < N ->
+  62 <= vcap bigmant -> (alloc c = false -> vcap bigmant = 62) -> zlen (vl bigmant) <= vcap bigmant ->
+  2 ^ 63 <= mant fp < 2 ^ 64 -> - 63 <= exp fp <= 2 ^ 30 -> - 2 ^ 30 <= exponent < 0 ->
+  round f b fp (round_down b) = Ok bfp -> extended_to_float f b bfp = Ok bbits ->
+  let beta := dec_exp f bbits - 1 - exponent in
+  N * 2 ^ Z.max 0 (- beta) < B64 ^ 62 ->
+  (2 * dec_mant f bbits + 1) * 5 ^ (- exponent) * 2 ^ Z.max 0 beta < B64 ^ 62 ->
+  forall w, rne_bits f N (10 ^ (- exponent)) w -> bbits <= w <= bbits + 1 ->
+  exists r, negative_digit_comp c TABLES LIMITS f b bigmant fp exponent = Ok r /\
+            extended_to_float f b r = Ok w.
+Proof.
+  intros Hf OK Hbo Hbn HbN HN Hbc0 Hbc Hbl Hm He Hex Hr1 Hr2.
+  destruct (rd_model f Hf b fp Hm He) as (R1 & R2 & _).
+  rewrite R1 in Hr1. injection Hr1 as <-. rewrite R2 in Hr2. injection Hr2 as <-.
+  apply negative_digit_comp_correct; assumption.
 Qed.
 
 (** [bbits] is what the function computes as `b` *)
@@ -346,5 +366,100 @@ Proof.
   rewrite R1. cbn [bind]. exact R2.
 Qed.
 
+(** ** 7. Examples *)
+
+(** little-endian limbs of a non-negative integer *)
+Fixpoint to_limbs (fuel : nat) (n : Z) : list Z :=
+  match fuel with
+  | O => []
+  | S k => if n =? 0 then [] else (n mod B64) :: to_limbs k (n / B64)
+  end.
+Definition big (n : Z) : vec := mkVec (to_limbs 62 n) 62.
+
+(** The hypotheses of the main theorem are satisfiable.  The classic hard case
+    1.00000000000000011102230246251565404236316680908203125 = 1 + 2^-53, the midpoint of 1.0 and
+    its successor: N = (2^53 + 1) * 5^53, exponent -53, estimate (2^63 + 2^10, 1012); the tie
+    goes to the even significand, w = 1.0. *)
+Definition ex_N := 100000000000000011102230246251565404236316680908203125.
+Definition ex_fp := mkExt 0x8000000000000400 1012.
+
+Example negative_digit_comp_correct_hyps :
+  let bigmant := big ex_N in
+  let bbits := rd_bits F64 ex_fp in
+  let beta := dec_exp F64 bbits - 1 - (-53) in
+  rfmt_ok F64 = true /\ fmt_ok F64 = true /\
+  limbs_ok (vl bigmant) /\ is_normalized (vl bigmant) = true /\ lval (vl bigmant) = ex_N /\ 0 < ex_N /\
+  62 <= vcap bigmant /\ vcap bigmant = 62 /\ zlen (vl bigmant) <= vcap bigmant /\
+  2 ^ 63 <= mant ex_fp < 2 ^ 64 /\ - 63 <= exp ex_fp <= 2 ^ 30 /\ - 2 ^ 30 <= -53 < 0 /\
+  bbits = 0x3ff0000000000000 /\
+  ex_N * 2 ^ Z.max 0 (- beta) < B64 ^ 62 /\
+  (2 * dec_mant F64 bbits + 1) * 5 ^ (- (-53)) * 2 ^ Z.max 0 beta < B64 ^ 62 /\
+  rne_bits F64 ex_N (10 ^ (- (-53))) 0x3ff0000000000000 /\
+  bbits <= 0x3ff0000000000000 <= bbits + 1.
+Proof.
+  cbv zeta.
+  split; [vm_compute; reflexivity|]. split; [vm_compute; reflexivity|].
+  split; [apply limbs_ok_forallb; vm_compute; reflexivity|].
+  split; [vm_compute; reflexivity|]. split; [vm_compute; reflexivity|]. split; [vm_compute; reflexivity|].
+  split; [vm_compute; congruence|]. split; [reflexivity|]. split; [vm_compute; congruence|].
+  split; [vm_compute; split; congruence|]. split; [vm_compute; split; congruence|].
+  split; [vm_compute; split; congruence|].
+  split; [vm_compute; reflexivity|]. split; [vm_compute; reflexivity|]. split; [vm_compute; reflexivity|].
+  split; [|vm_compute; split; congruence].
+  right. right. split; [vm_compute; reflexivity|]. split; [vm_compute; reflexivity|].
+  exists (2 ^ 52), (-52). split; [|split].
+  - unfold canon_exp. vm_compute. split; [congruence|]. split; [reflexivity|right; congruence].
+  - unfold nearest_even. vm_compute. split; [congruence|reflexivity].
+  - vm_compute. reflexivity.
+Qed.
+
+(** ... and the theorem then gives the result for every configuration and build mode at once *)
+Example negative_digit_comp_halfway_inst c b :
+  exists r, negative_digit_comp c TABLES LIMITS F64 b (big ex_N) ex_fp (-53) = Ok r /\
+            extended_to_float F64 b r = Ok 0x3ff0000000000000.
+Proof.
+  destruct negative_digit_comp_correct_hyps as
+    (H1 & H2 & H3 & H4 & H5 & H6 & H7 & H8 & H9 & H10 & H11 & H12 & H13 & H14 & H15 & H16 & H17).
+  apply (negative_digit_comp_correct c F64 b (big ex_N) ex_fp (-53) ex_N); auto.
+Qed.
+
+(** Direct runs of the model on the special cases (checked build):
+    - the tie above, and one unit in the last decimal place more (rounds up);
+    - +0 / smallest subnormal: 2^-1075 = 5^1075 * 10^-1075 is half the smallest subnormal (tie, M = 0
+      even: result +0); one more unit in the last place gives the smallest subnormal;
+    - largest subnormal -> smallest normal: the midpoint (2^53 - 1) * 2^-1075, M = 2^52 - 1 odd: up,
+      through the hidden-bit overlap of [round]'s subnormal branch; just below it: down;
+    - largest finite -> +infinity: the midpoint (2^54 - 1) * 2^970 (written with exponent -1),
+      M = 2^53 - 1 odd: up, the carry yields the infinity fields; just below it: down. *)
+Definition run_ndc (N : Z) (fp : extfloat) (exponent : Z) : outcome Z :=
+  r <- negative_digit_comp CFG_s TABLES LIMITS F64 checked_build (big N) fp exponent ;;
+  extended_to_float F64 checked_build r.
+
+Example negative_digit_comp_runs :
+  run_ndc ex_N ex_fp (-53) = Ok 0x3ff0000000000000 /\
+  run_ndc (ex_N + 1) ex_fp (-53) = Ok 0x3ff0000000000001 /\
+  run_ndc (5 ^ 1075) (mkExt (2 ^ 63) (-63)) (-1075) = Ok 0 /\
+  run_ndc (5 ^ 1075 + 1) (mkExt (2 ^ 63) (-63)) (-1075) = Ok 1 /\
+  run_ndc ((2 ^ 53 - 1) * 5 ^ 1075) (mkExt ((2 ^ 53 - 1) * 2 ^ 11) (-11)) (-1075) = Ok 0x0010000000000000 /\
+  run_ndc ((2 ^ 53 - 1) * 5 ^ 1075 - 1) (mkExt ((2 ^ 53 - 1) * 2 ^ 11 - 1) (-11)) (-1075) = Ok 0x000fffffffffffff /\
+  run_ndc ((2 ^ 54 - 1) * 2 ^ 970 * 10) (mkExt ((2 ^ 54 - 1) * 2 ^ 10) 2035) (-1) = Ok 0x7ff0000000000000 /\
+  run_ndc ((2 ^ 54 - 1) * 2 ^ 970 * 10 - 1) (mkExt ((2 ^ 54 - 1) * 2 ^ 10 - 1) 2035) (-1) = Ok 0x7fefffffffffffff.
+Proof. vm_compute. repeat split; reflexivity. Qed.
+
+(** the halfway case and the overflow case on all eight generated configurations (stack / heap,
+    compact or not, 32- or 64-bit limb dumps), both build modes *)
+Example negative_digit_comp_runs_all_configs :
+  forallb (fun c => forallb (fun b =>
+    match (r <- negative_digit_comp c TABLES LIMITS F64 b (big ex_N) ex_fp (-53) ;;
+           extended_to_float F64 b r),
+          (r <- negative_digit_comp c TABLES LIMITS F64 b (big ((2 ^ 54 - 1) * 2 ^ 970 * 10))
+                  (mkExt ((2 ^ 54 - 1) * 2 ^ 10) 2035) (-1) ;;
+           extended_to_float F64 b r) with
+    | Ok w1, Ok w2 => (w1 =? 0x3ff0000000000000) && (w2 =? 0x7ff0000000000000)
+    | _, _ => false
+    end) [release_build; checked_build]) ALL_CONFIGS = true.
+Proof. vm_compute. reflexivity. Qed.
+
 Print Assumptions negative_digit_comp_correct_gen.
 Print Assumptions negative_digit_comp_correct.
+Print Assumptions negative_digit_comp_correct_b.
